@@ -1,4 +1,7 @@
 import LassoModel.Keys
+import LassoModel.Hash
+import LassoModel.Serde
+import LassoModel.Wrap
 import LassoModel.Extracted
 /-
   Line-protocol driver: one operation per input line, one answer per output line.
@@ -7,17 +10,557 @@ import LassoModel.Extracted
 namespace Lasso.Driver
 open Lasso Lasso.Source
 
+inductive Obj where
+  | rodeo (r : Rodeo)
+  | threaded (t : Threaded)
+  | reader (r : Reader) (unordered : Bool)
+  | resolver (r : Resolver) (unordered : Bool)
+  | gone
+  deriving Inhabited
+
 structure DState where
-  dummy : Nat := 0
+  env : Env := { hash := fnv1a, pool := [] }
+  N : Nat := 4294967295
+  slots : List Obj := []
+
+/-! ### parsing / printing -/
+
+def hexDigit (c : Char) : Option Nat :=
+  if '0' ≤ c ∧ c ≤ '9' then some (c.toNat - '0'.toNat)
+  else if 'a' ≤ c ∧ c ≤ 'f' then some (c.toNat - 'a'.toNat + 10)
+  else none
+
+def unhexChars : List Char → Option Bytes
+  | [] => some []
+  | [_] => none
+  | a :: b :: r =>
+    match hexDigit a, hexDigit b, unhexChars r with
+    | some x, some y, some rest => some (UInt8.ofNat (x * 16 + y) :: rest)
+    | _, _, _ => none
+
+def unhex (s : String) : Option Bytes := if s == "-" then some [] else unhexChars s.toList
+
+def hexNib (n : Nat) : Char := if n < 10 then Char.ofNat (n + '0'.toNat) else Char.ofNat (n - 10 + 'a'.toNat)
+
+def hex (b : Bytes) : String :=
+  if b.isEmpty then "-" else String.ofList (b.flatMap fun x => [hexNib (x.toNat / 16), hexNib (x.toNat % 16)])
+
+def unhexList (s : String) : Option (List Bytes) :=
+  if s == "_" then some [] else (s.splitOn ",").mapM unhex
+
+def parseDocMap (s : String) : Option (List (Bytes × Nat)) :=
+  if s == "_" then some [] else
+  (s.splitOn ",").mapM fun e => match e.splitOn "=" with
+    | [h, r] => match unhex h, r.toNat? with
+      | some b, some n => some (b, n)
+      | _, _ => none
+    | _ => none
+
+def joinWith (sep : String) (l : List String) : String := sep.intercalate l
+
+def showList (l : List String) : String := if l.isEmpty then "_" else joinWith "," l
+
+def capacityOfName (name : String) : Option Nat :=
+  match name with
+  | "spur" => some 4294967295
+  | "mini" => some 65535
+  | "micro" => some 255
+  | "large" => some 18446744073709551615
+  | _ => match name.splitOn ":" with
+    | ["small", n] => n.toNat?
+    | _ => none
+
+def showErr : Err → String
+  | .memoryLimit => "err mem"
+  | .keySpace => "err keys"
+  | .failedAlloc => "err alloc"
+  | .serde => "err serde"
+
+def showOut (f : α → String) : Out α → String
+  | .ok a => f a
+  | .err e => showErr e
+  | .panic => "panic"
+  | .fault _ => "fault"
+
+def showLimit (n : Nat) : String := if n ≥ usizeMax then "max" else toString n
+
+/-! ### uniform access to the four containers -/
+
+namespace Obj
+
+def read : Obj → Loc → Option Bytes
+  | .rodeo r, l => r.arena.read l
+  | .threaded t, l => t.arena.read l
+  | .reader r _, l => r.arena.read l
+  | .resolver r _, l => r.arena.read l
+  | .gone, _ => none
+
+def blocks : Obj → List Bucket
+  | .rodeo r => r.arena.vecOrder
+  | .threaded t => t.arena.buckets
+  | .reader r _ => r.arena.blocks
+  | .resolver r _ => r.arena.blocks
+  | .gone => []
+
+def isUnordered : Obj → Bool
+  | .threaded t => t.unordered
+  | .reader _ u => u
+  | .resolver _ u => u
+  | _ => false
+
+/-- key index -> reference, for every kind -/
+def refAt : Obj → Nat → Option StrRef
+  | .rodeo r, k => r.strings[k]?
+  | .threaded t, k => t.resolveRef k
+  | .reader r _, k => r.strings[k]?
+  | .resolver r _, k => r.strings[k]?
+  | .gone, _ => none
+
+def len : Obj → Nat
+  | .rodeo r => r.strings.length
+  | .threaded t => t.strs.length
+  | .reader r _ => r.strings.length
+  | .resolver r _ => r.strings.length
+  | .gone => 0
+
+/-- `(key, ref)` pairs in canonical (key) order -/
+def pairs : Obj → List (Nat × StrRef)
+  | .rodeo r => r.strings.zipIdx.map (fun (s, i) => (i, s))
+  | .threaded t => t.sortedStrs
+  | .reader r _ => r.strings.zipIdx.map (fun (s, i) => (i, s))
+  | .resolver r _ => r.strings.zipIdx.map (fun (s, i) => (i, s))
+  | .gone => []
+
+def usage : Obj → Nat
+  | .rodeo r => r.arena.usage
+  | .threaded t => t.arena.usage
+  | .reader r _ => r.arena.usage
+  | .resolver r _ => r.arena.usage
+  | .gone => 0
+
+def maxMem : Obj → Nat
+  | .rodeo r => r.arena.max
+  | .threaded t => t.arena.max
+  | _ => 0
+
+def N : Obj → Nat
+  | .rodeo r => r.N
+  | .threaded t => t.N
+  | .reader r _ => r.N
+  | .resolver r _ => r.N
+  | .gone => 0
+
+end Obj
+
+def blockPos (bs : List Bucket) (id : Nat) : Option Nat := bs.findIdx? (fun b => b.id == id)
+
+def showProv (o : Obj) : StrRef → String
+  | .arena loc =>
+    match blockPos o.blocks loc.bid with
+    | some p => if o.isUnordered then s!"A{p}:?" else s!"A{p}:{loc.off}"
+    | none => "A?"
+  | .static i => s!"S{i}"
+  | .empty => "E"
+
+def contentIn (env : Env) (o : Obj) (ref : StrRef) : Option Bytes := contentOf env o.read ref
+
+/-- `<hex> <prov>` of a reference, or `none` when it dangles (a fault). -/
+def showRef (env : Env) (o : Obj) (ref : StrRef) : Option String :=
+  match contentIn env o ref with
+  | some b => some s!"{hex b} {showProv o ref}"
+  | none => none
+
+def getSlot (st : DState) (i : Nat) : Obj := st.slots.getD i .gone
+
+def setSlot (st : DState) (i : Nat) (o : Obj) : DState :=
+  let padded := if i < st.slots.length then st.slots else st.slots ++ List.replicate (i + 1 - st.slots.length) Obj.gone
+  { st with slots := padded.set i o }
+
+/-! ### operations -/
+
+def opIntern (st : DState) (s : Nat) (x : Bytes) (infallible : Bool) : DState × String :=
+  match getSlot st s with
+  | .rodeo r =>
+    let res := r.tryIntern st.env x true
+    let res := if infallible then Rodeo.expectOk res else res
+    match res with
+    | .ok (r', k) => (setSlot st s (.rodeo r'), s!"ok {k}")
+    | o => (st, showOut (fun _ => "") o)
+  | .threaded t =>
+    let (t', res) := t.tryIntern st.env x
+    let res := if infallible then Rodeo.expectOk res else res
+    (setSlot st s (.threaded t'), showOut (fun k => s!"ok {k}") res)
+  | _ => (st, "bad-op")
+
+def opInternStatic (st : DState) (s : Nat) (i : Nat) (infallible : Bool) : DState × String :=
+  match getSlot st s with
+  | .rodeo r =>
+    let res := r.tryInternStatic st.env i true
+    let res := if infallible then Rodeo.expectOk res else res
+    match res with
+    | .ok (r', k) => (setSlot st s (.rodeo r'), s!"ok {k}")
+    | o => (st, showOut (fun _ => "") o)
+  | .threaded t =>
+    let (t', res) := t.tryInternStatic st.env i
+    let res := if infallible then Rodeo.expectOk res else res
+    (setSlot st s (.threaded t'), showOut (fun k => s!"ok {k}") res)
+  | _ => (st, "bad-op")
+
+def opGet (st : DState) (s : Nat) (x : Bytes) : Option (Out (Option Nat)) :=
+  match getSlot st s with
+  | .rodeo r => some (r.get st.env x)
+  | .threaded t => some (.ok (t.get st.env x))
+  | .reader r _ => some (r.get st.env x)
+  | _ => none
+
+/-- Resolution. `mode`: 0 = resolve / index (panics when unknown), 1 = try_resolve, 2 = resolve_unchecked. -/
+def opResolve (st : DState) (s : Nat) (k : Nat) (mode : Nat) : String :=
+  let o := getSlot st s
+  match o with
+  | .gone => "bad-op"
+  | _ =>
+    match o.refAt k with
+    | some ref =>
+      match showRef st.env o ref with
+      | some str => if mode == 1 then s!"some {str}" else s!"str {str}"
+      | none => "fault"
+    | none => if mode == 0 then "panic" else if mode == 1 then "none" else "skipped"
+
+def showPairs (env : Env) (o : Obj) (withKeys : Bool) : String :=
+  let items := o.pairs.map fun (k, ref) =>
+    match contentIn env o ref with
+    | some b => if withKeys then s!"{k}:{hex b}" else hex b
+    | none => "fault"
+  showList items
+
+def parseScript (s : String) : List IterStep :=
+  (s.splitOn ",").filterMap fun t =>
+    if t == "n" then some .next
+    else if t == "b" then some .nextBack
+    else if t == "l" then some .len
+    else if t.startsWith "t" then (t.drop 1).toString.toNat?.map .nthBack
+    else none
+
+def runScript (items : List String) : List IterStep → List String
+  | [] => []
+  | st :: rest =>
+    let (l', out) := iterStep items st
+    let shown := match out with
+      | none => "none"
+      | some (.inl x) => x
+      | some (.inr n) => toString n
+    shown :: runScript l' rest
+
+def opIterScript (st : DState) (s : Nat) (kind : String) (script : String) : String :=
+  let o := getSlot st s
+  let items := o.pairs.map fun (k, ref) =>
+    match contentIn st.env o ref with
+    | some b => if kind == "strings" then hex b else s!"{k}:{hex b}"
+    | none => "fault"
+  joinWith ";" (runScript items (parseScript script))
+
+def contentsOfObj (env : Env) (o : Obj) : Option (List Bytes) :=
+  o.pairs.mapM fun (_, ref) => contentIn env o ref
+
+def kindName : Obj → String
+  | .rodeo _ => "Rodeo"
+  | .threaded _ => "ThreadedRodeo"
+  | .reader _ _ => "RodeoReader"
+  | .resolver _ _ => "RodeoResolver"
+  | .gone => "gone"
+
+/-- `a == b`, evaluated by the shape the extractor read from the `PartialEq` impl of the pairing. -/
+def opEq (st : DState) (a b : Nat) : String :=
+  let oa := getSlot st a
+  let ob := getSlot st b
+  match Extracted.eqImpls.find? (fun e => e.lhs == kindName oa && e.rhs == kindName ob) with
+  | none => "unsupported"
+  | some e =>
+    match e.shape with
+    | .stringsEq => showOut toString (eqStrings (contentsOfObj st.env oa) (contentsOfObj st.env ob))
+    | .lenAndAllLookup =>
+      match oa, ob with
+      | .threaded ta, .threaded tb => toString (eqThreaded st.env ta tb)
+      | .threaded ta, _ => showOut toString (eqThreadedVec st.env ta.N ta (contentsOfObj st.env ob))
+      | _, _ => "unsupported"
+    | .other _ => "unknown-shape"
+
+def opSer (st : DState) (a : Nat) : String :=
+  let o := getSlot st a
+  match o with
+  | .threaded t =>
+    -- map string -> raw key, canonicalised by sorting on the hex of the string
+    let items := t.map.filterMap fun (ref, k) => (t.content st.env ref).map fun b => (hex b, k + 1)
+    let sorted := items.toArray.qsort (fun x y => x.1 < y.1) |>.toList
+    "map " ++ showList (sorted.map fun (h, r) => s!"{h}={r}")
+  | .gone => "bad-op"
+  | _ => match contentsOfObj st.env o with
+    | some cs => "list " ++ showList (cs.map hex)
+    | none => "fault"
+
+def opDe (st : DState) (kind : String) (s : Nat) (doc : String) : DState × String :=
+  match kind with
+  | "rodeo" => match unhexList doc with
+    | some d => match deRodeo st.env st.N d with
+      | .ok r => (setSlot st s (.rodeo r), "ok")
+      | o => (st, showOut (fun _ => "") o)
+    | none => (st, "bad-op")
+  | "reader" => match unhexList doc with
+    | some d => match deReader st.env st.N d with
+      | .ok r => (setSlot st s (.reader r false), "ok")
+      | o => (st, showOut (fun _ => "") o)
+    | none => (st, "bad-op")
+  | "resolver" => match unhexList doc with
+    | some d => match deResolver st.N d with
+      | .ok r => (setSlot st s (.resolver r false), "ok")
+      | o => (st, showOut (fun _ => "") o)
+    | none => (st, "bad-op")
+  | "threaded" => match parseDocMap doc with
+    | some d => match deThreaded st.N d with
+      | .ok t => (setSlot st s (.threaded t), "ok")
+      | o => (st, showOut (fun _ => "") o)
+    | none => (st, "bad-op")
+  | _ => (st, "bad-op")
+
+/-- `extend` / the loop of `from_iter`: `get_or_intern` (infallible) on every item in order. -/
+def internAll (st : DState) (s : Nat) : List Bytes → DState × String
+  | [] => (st, "ok")
+  | x :: rest =>
+    let (st', out) := opIntern st s x true
+    if out.startsWith "ok" then internAll st' s rest else (st', out)
+
+def opAudit (st : DState) (a : Nat) : String :=
+  let o := getSlot st a
+  let bl := o.blocks.map fun b => s!"{b.cap}:{b.data.length}"
+  let ss := o.pairs.map fun (_, ref) =>
+    match ref with
+    | .arena loc => s!"{showProv o ref}:{loc.len}"
+    | _ => showProv o ref
+  s!"blocks {showList bl} strs {showList ss} mem {o.usage}"
+
+def newObj (st : DState) (kind : String) (bytes limit : Nat) : Option Obj :=
+  match kind with
+  | "rodeo" => some (.rodeo (Rodeo.new st.N bytes limit))
+  | "threaded" => some (.threaded (Threaded.new st.N bytes limit))
+  | _ => none
+
+def parseLimit (s : String) : Option Nat := if s == "max" then some usizeMax else s.toNat?
+
+/-- Interpretation of one (already split) operation. -/
+def stepOp (st : DState) (toks : List String) : DState × String :=
+  match toks with
+  | ["new", s, kind, _strings, bytes, limit] =>
+    match s.toNat?, bytes.toNat?, parseLimit limit with
+    | some s, some b, some l => match newObj st kind b l with
+      | some o => (setSlot st s o, "ok")
+      | none => (st, "bad-op")
+    | _, _, _ => (st, "bad-op")
+  | ["intern", s, x] => match s.toNat?, unhex x with
+    | some s, some x => opIntern st s x false
+    | _, _ => (st, "bad-op")
+  | ["internP", s, x] => match s.toNat?, unhex x with
+    | some s, some x => opIntern st s x true
+    | _, _ => (st, "bad-op")
+  | ["internS", s, i] => match s.toNat?, i.toNat? with
+    | some s, some i => opInternStatic st s i false
+    | _, _ => (st, "bad-op")
+  | ["internSP", s, i] => match s.toNat?, i.toNat? with
+    | some s, some i => opInternStatic st s i true
+    | _, _ => (st, "bad-op")
+  | ["get", s, x] => match s.toNat?, unhex x with
+    | some s, some x => match opGet st s x with
+      | some r => (st, showOut (fun o => match o with
+          | some k => s!"some {k}"
+          | none => "none") r)
+      | none => (st, "bad-op")
+    | _, _ => (st, "bad-op")
+  | ["contains", s, x] => match s.toNat?, unhex x with
+    | some s, some x => match opGet st s x with
+      | some r => (st, showOut (fun o => toString o.isSome) r)
+      | none => (st, "bad-op")
+    | _, _ => (st, "bad-op")
+  | ["resolve", s, k] => match s.toNat?, k.toNat? with
+    | some s, some k => (st, opResolve st s k 0)
+    | _, _ => (st, "bad-op")
+  | ["index", s, k] => match s.toNat?, k.toNat? with
+    | some s, some k => (st, opResolve st s k 0)
+    | _, _ => (st, "bad-op")
+  | ["tryResolve", s, k] => match s.toNat?, k.toNat? with
+    | some s, some k => (st, opResolve st s k 1)
+    | _, _ => (st, "bad-op")
+  | ["resolveU", s, k] => match s.toNat?, k.toNat? with
+    | some s, some k => (st, opResolve st s k 2)
+    | _, _ => (st, "bad-op")
+  | ["containsKey", s, k] => match s.toNat?, k.toNat? with
+    | some s, some k => (st, toString ((getSlot st s).refAt k).isSome)
+    | _, _ => (st, "bad-op")
+  | ["len", s] => match s.toNat? with
+    | some s => (st, toString (getSlot st s).len)
+    | none => (st, "bad-op")
+  | ["isEmpty", s] => match s.toNat? with
+    | some s => (st, toString ((getSlot st s).len == 0))
+    | none => (st, "bad-op")
+  | ["mem", s] => match s.toNat? with
+    | some s => (st, toString (getSlot st s).usage)
+    | none => (st, "bad-op")
+  | ["max", s] => match s.toNat? with
+    | some s => (st, showLimit (getSlot st s).maxMem)
+    | none => (st, "bad-op")
+  | ["setLimit", s, n] => match s.toNat?, parseLimit n with
+    | some s, some n => match getSlot st s with
+      | .rodeo r => (setSlot st s (.rodeo (r.setLimit n)), "ok")
+      | .threaded t => (setSlot st s (.threaded (t.setLimit n)), "ok")
+      | _ => (st, "bad-op")
+    | _, _ => (st, "bad-op")
+  | ["clear", s] => match s.toNat? with
+    | some s => match getSlot st s with
+      | .rodeo r => (setSlot st s (.rodeo r.clear), "ok")
+      | _ => (st, "bad-op")
+    | none => (st, "bad-op")
+  | ["drop", s] => match s.toNat? with
+    | some s => (setSlot st s .gone, "ok")
+    | none => (st, "bad-op")
+  | ["extend", s, items] => match s.toNat?, unhexList items with
+    | some s, some xs => internAll st s xs
+    | _, _ => (st, "bad-op")
+  | [op, a, b] =>
+    match a.toNat?, b.toNat? with
+    | some a, some b =>
+      if op == "clone" || op == "tryClone" then
+        match getSlot st a with
+        | .rodeo r =>
+          let res := r.tryClone st.env true
+          let res := if op == "clone" then Rodeo.expectOk res else res
+          match res with
+          | .ok r' => (setSlot st b (.rodeo r'), "ok")
+          | o => (st, showOut (fun _ => "") o)
+        | _ => (st, "bad-op")
+      else if op == "cloneFrom" || op == "tryCloneFrom" then
+        -- target a, source b; a failed clone-into leaves the target unspecified: it is dropped
+        match getSlot st a, getSlot st b with
+        | .rodeo t, .rodeo src =>
+          let res := Rodeo.tryCloneFrom st.env t src true
+          let res := if op == "cloneFrom" then Rodeo.expectOk res else res
+          match res with
+          | .ok r' => (setSlot st a (.rodeo r'), "ok")
+          | o => (setSlot st a .gone, showOut (fun _ => "") o)
+        | _, _ => (st, "bad-op")
+      else if op == "eq" then (st, opEq st a b)
+      else (st, "bad-op")
+    | _, _ => (st, "bad-op")
+  | ["intoReader", s] => match s.toNat? with
+    | some s => match getSlot st s with
+      | .rodeo r => (setSlot st s (.reader r.intoReader false), "ok")
+      | .threaded t => match t.intoReader st.env with
+        | .ok r => (setSlot st s (.reader r t.unordered), "ok")
+        | o => (setSlot st s .gone, showOut (fun _ => "") o)
+      | _ => (st, "bad-op")
+    | none => (st, "bad-op")
+  | ["intoResolver", s] => match s.toNat? with
+    | some s => match getSlot st s with
+      | .rodeo r => (setSlot st s (.resolver r.intoResolver false), "ok")
+      | .threaded t => match t.intoResolver with
+        | .ok r => (setSlot st s (.resolver r t.unordered), "ok")
+        | o => (setSlot st s .gone, showOut (fun _ => "") o)
+      | .reader r u => (setSlot st s (.resolver r.intoResolver u), "ok")
+      | _ => (st, "bad-op")
+    | none => (st, "bad-op")
+  | ["iter", s] => match s.toNat? with
+    | some s => (st, showPairs st.env (getSlot st s) true)
+    | none => (st, "bad-op")
+  | ["strings", s] => match s.toNat? with
+    | some s => (st, showPairs st.env (getSlot st s) false)
+    | none => (st, "bad-op")
+  | ["iterScript", s, kind, script] => match s.toNat? with
+    | some s => (st, opIterScript st s kind script)
+    | none => (st, "bad-op")
+  | ["ser", s] => match s.toNat? with
+    | some s => (st, opSer st s)
+    | none => (st, "bad-op")
+  | ["de", kind, s, doc] => match s.toNat? with
+    | some s => opDe st kind s doc
+    | none => (st, "bad-op")
+  | ["fromIter", s, kind, items, _hint] => match s.toNat?, unhexList items with
+    | some s, some xs =>
+      -- `Capacity::for_strings(hint)`: default 4096 bytes, no limit
+      match newObj st kind 4096 usizeMax with
+      | some o =>
+        -- a panic inside `from_iter` unwinds through the half-built interner: nothing is produced
+        let (st', out) := internAll (setSlot st s o) s xs
+        if out == "ok" then (st', out) else (setSlot st' s .gone, out)
+      | none => (st, "bad-op")
+    | _, _ => (st, "bad-op")
+  | ["audit", s] => match s.toNat? with
+    | some s => (st, opAudit st s)
+    | none => (st, "bad-op")
+  | _ => (st, "bad-op")
+
+/-- `roundtrip a b`: serialise `a`, deserialise the result as the same container kind into `b`. -/
+def opRoundtrip (st : DState) (a b : Nat) : DState × String :=
+  let o := getSlot st a
+  match o with
+  | .gone => (st, "bad-op")
+  | .threaded t =>
+    let doc := t.map.filterMap fun (ref, k) => (t.content st.env ref).map fun x => (x, k + 1)
+    if doc.length ≠ t.map.length then (st, "fault") else
+    match deThreaded st.N doc with
+    | .ok t' => (setSlot st b (.threaded t'), "ok")
+    | r => (st, showOut (fun _ => "") r)
+  | _ =>
+    match contentsOfObj st.env o with
+    | none => (st, "fault")
+    | some cs =>
+      match o with
+      | .rodeo _ => match deRodeo st.env st.N cs with
+        | .ok r => (setSlot st b (.rodeo r), "ok")
+        | r => (st, showOut (fun _ => "") r)
+      | .reader _ _ => match deReader st.env st.N cs with
+        | .ok r => (setSlot st b (.reader r false), "ok")
+        | r => (st, showOut (fun _ => "") r)
+      | _ => match deResolver st.N cs with
+        | .ok r => (setSlot st b (.resolver r false), "ok")
+        | r => (st, showOut (fun _ => "") r)
+
+/-- Operations after which a faulted object is unusable: the slot is dropped (the harness does the same). -/
+def mutatingOps : List String := ["intern", "internP", "internS", "internSP", "extend", "fromIter"]
+
+/-- Slots an operation reads: an operation on a slot that holds nothing is a `bad-op`. -/
+def subjectsOf (toks : List String) : List String :=
+  match toks with
+  | op :: a :: rest =>
+    if op == "new" || op == "de" || op == "fromIter" || op == "drop" then []
+    else if op == "cloneFrom" || op == "tryCloneFrom" || op == "eq" then a :: rest.take 1
+    else [a]
+  | _ => []
+
+def subjectsLive (st : DState) (toks : List String) : Bool :=
+  (subjectsOf toks).all fun s => match s.toNat? with
+    | some i => match getSlot st i with
+      | .gone => false
+      | _ => true
+    | none => false
+
+def stepOpG (st : DState) (toks : List String) : DState × String :=
+  if !subjectsLive st toks then (st, "bad-op") else
+  match toks with
+  | ["roundtrip", a, b] => match a.toNat?, b.toNat? with
+    | some a, some b => opRoundtrip st a b
+    | _, _ => (st, "bad-op")
+  | _ =>
+    let (st', out) := stepOp st toks
+    if out == "fault" then
+      match toks with
+      | op :: s :: _ =>
+        if mutatingOps.contains op then
+          match s.toNat? with
+          | some s => (setSlot st' s .gone, out)
+          | none => (st', out)
+        else (st', out)
+      | _ => (st', out)
+    else (st', out)
 
 def findSpec (name : String) : Option KeySpec :=
   Extracted.keySpecs.find? (fun s => s.name == name)
-
-def showFault : Fault → String
-  | .oobWrite => "fault oobWrite"
-  | .oobIndex => "fault oobIndex"
-  | .unreachable => "fault unreachable"
-  | .unwrapNone => "fault unwrapNone"
 
 def step (st : DState) (line : String) : DState × String :=
   match line.trimAscii.toString.splitOn " " with
@@ -36,6 +579,19 @@ def step (st : DState) (line : String) : DState × String :=
       | .ok v => (st, s!"{v}")
       | _ => (st, "fault")
     | _, _ => (st, "bad-op")
-  | _ => (st, "bad-op")
+  | ["case", key, hasher] =>
+    match capacityOfName key, hashByName hasher with
+    | some n, some h => ({ env := { hash := h, pool := st.env.pool }, N := n, slots := [] }, "case")
+    | _, _ => (st, "bad-op")
+  | "pool" :: items =>
+    match items.mapM unhex with
+    | some p => ({ st with env := { st.env with pool := p } }, s!"pool {p.length}")
+    | none => (st, "bad-op")
+  | "via" :: route :: rest =>
+    -- the meaning of a call through a wrapper is *defined* by the extracted forwarding table
+    match Wrap.resolveVia Extracted.forwards route rest with
+    | some toks' => stepOpG st toks'
+    | none => (st, "no-route")
+  | toks => stepOpG st toks
 
 end Lasso.Driver
